@@ -154,13 +154,19 @@ def c03_4(ctx):
                 nowrap = lab[1]
         if nc is None:
             continue
-        g = apnf.N(nc[0])
-        if nc[1] == ("bool", True):
-            got.setdefault(code, set()).add((_abstract(g), nowrap))
-        elif nc[1][0] == "is":
-            got.setdefault(code, set()).add((("is", nc[1][1], _abstract(g)), nowrap))
-        else:
-            got.setdefault(code, set()).add((("cond", str(nc[1]), _abstract(g)), nowrap))
+        # a guard operand computed on two branches (`if nowrap { sat } else { wrap }`, possibly in a helper): one row per branch
+        for gt, extra in U.phi_alternatives(b, nc[0]):
+            nw = nowrap
+            for t, lab in extra:
+                if strip_all(t) == ("arg", 4, "nowrap") and lab[0] == "bool":
+                    nw = lab[1]
+            g = apnf.N(gt)
+            if nc[1] == ("bool", True):
+                got.setdefault(code, set()).add((_abstract(g), nw))
+            elif nc[1][0] == "is":
+                got.setdefault(code, set()).add((("is", nc[1][1], _abstract(g)), nw))
+            else:
+                got.setdefault(code, set()).add((("cond", str(nc[1]), _abstract(g)), nw))
     exp = checker_table()
     miss = [(("is", ("None",), ("HashMap::get", "removal_coin_records", "COIN_ID_OF_THE_SPEND"))), None]
     exp["InvalidCoinId"] = {tuple(miss)}
